@@ -29,7 +29,7 @@ var commonAssumptions = []string{
 func init() {
 	addProp(&PropSpec{
 		ID: "C17", Level: "proof", Exhaustive: true,
-		Quick: []string{"R-MODE-TABLES", "R-SPELLINGS"},
+		Quick:       []string{"R-MODE-TABLES", "R-SPELLINGS"},
 		Explanation: "The tables of CanBeDownshiftedTo/CanBeUpshiftedTo/Equals/AllowsWeakening/AllowsContraction/String/FullString/Copy are read off the source by sparse conditional constant propagation over go/ssa, one evaluation per (receiver mode, argument mode) with the dynamic types assumed; every entry must fold to one constant. All order laws (reflexivity, antisymmetry, transitivity over all 64 triples, converse, top/bottom/incomparable, monotone structural rules, Equals = identity, Copy) are then checked exhaustively on the extracted tables, and StringToMode is evaluated for each of the 12 documented spellings. The domain is finite and fully enumerated.",
 		NotDecided:  "nothing of the statement; upper-cased spellings are evaluated and recorded but are not documented, hence not required",
 		Assumptions: append([]string{"the SCCP evaluator implements Go's semantics for the constructs it folds (type switch, comma-ok assertion, string switch, strings.ToLower on constants)"}, commonAssumptions...),
